@@ -28,7 +28,8 @@ C16_BOUNDED = [H + 'cat::v_concat_heap_receiver', H + 'cat::v_concat_inline_heap
 
 COMMON_ASSUMPTIONS = [
     'Verus 0.2026.09.13, its bundled Z3 and rustc 1.98.1 are correct',
-    'transformations T1-T7 of tools/extract.py preserve behaviour (T3 is the language definition of `for`; '
+    'transformations T1-T8 of tools/extract.py preserve behaviour (T3 is the language definition of `for`; T8 binds a '
+    'closure parameter pattern with a `let` inside the closure body; '
     'T2 drops trace!/debug! logging statements only; T7 names the return value); provenance check enforced every run',
     'machine arithmetic is NOT idealised: usize operations in exec code carry overflow obligations',
 ]
@@ -42,7 +43,6 @@ BASELINE_OFF_CMD = ('cd /repo && cargo nextest run --workspace --no-fail-fast --
                     '--profile pb --test-threads 8 --offline || cargo test --workspace --no-fail-fast --offline')
 
 NOT_APPLICABLE = {
-    'C05': 'pending: U_ops unit under construction in this session',
     'C07': 'pending: U_ops unit under construction in this session',
     'C08': 'save/load behaviour is the serde derive expansion of five types plus hand-written serde impls of three '
            'dependency crates plus bincode (emap deserialises through a std HashMap); no function of sodg can carry a '
@@ -69,6 +69,8 @@ GRAPH_TRUSTED = [
     '`==` on Label/Persistence is structural (Verus `Structural`): discharged by Kani harnesses on the real types for C01-C03, assumed elsewhere',
     'Hex is opaque in this unit: Hex::empty() has the empty byte string, Hex::clone() keeps the byte string (proved for empty() in U_hex)',
     'assume_specification <[T]>::to_vec',
+    'std Iterator::find on emap::Iter (inherent shim method): first remaining element accepted by the predicate',
+    'vstd specification of Option::map / Option::unwrap',
 ]
 
 SENSITIVE_SIZE = ('N', 'cap', 'capacity', 'MAX_BRANCHES', 'MAX_BRANCH_SIZE', 'HEX_SIZE', 'size_of', 'size_of_val')
@@ -167,6 +169,17 @@ PROPS = {
         'Unbounded proof; covers recycled ids and ids from next_id() because the contract quantifies over every wf state.',
         'add-step, add-wf, lemma L04.',
         ['the callers slice_some/merge_rec benefit only by composition']),
+    'C05': graph_prop(
+        'C05',
+        'contract-based deductive verification (Verus) of the real next_id() (closure-parameter patterns bound by the '
+        'mechanical rewriting T8, std Iterator::find specified for the emap iterator), "allocator position unchanged" '
+        'frame on every other operation, clone copies it; trace lemma "never repeats"',
+        'Unbounded proof: the id returned is below the capacity, absent, at or above the position and the least such; the '
+        'position moves past it; no other operation moves the position; L05: along any history (including after cloning) the '
+        'ids returned are strictly increasing and absent when returned.',
+        'next_id-fresh, next_id-alloc, *-alloc of add/bind/put/data/empty/clone, lemmas L05 and L19-next-id-determined.',
+        ['merge() and Script use the allocator by composition only (not verified)',
+         'contract of Iterator::find on emap::Iter is trusted (shim)']),
     'C06': graph_prop(
         'C06',
         'contract-based deductive verification (Verus): data() frees the slot (list empty, counter 0), bind() takes the least '
